@@ -19,6 +19,61 @@ pub enum AnyOh {
     Z(OpeningHours<TzLocation<Tz>>, Tz),
 }
 
+/// A caller-written locale (the public `Localize` trait is the seam) whose sun events depend on *another* schedule:
+/// `event_time` evaluates `inner` on the calling thread, i.e. an evaluation is entered while another one is half-way
+/// (the venue's "sunset" is half an hour later on days its own published hours say it is open at 11:00).
+#[derive(Clone)]
+pub struct NestedLocale {
+    inner: Arc<OpeningHours>,
+    /// Some: the answers of `inner` were asked before the outer evaluation started (no re-entrancy: the reference)
+    known: Option<Arc<std::collections::BTreeMap<NaiveDate, bool>>>,
+}
+
+fn inner_open(inner: &OpeningHours, date: NaiveDate) -> bool {
+    inner.state(date.and_hms_opt(11, 0, 0).unwrap()) == opening_hours::RuleKind::Open
+}
+
+impl opening_hours::localization::Localize for NestedLocale {
+    type DateTime = NaiveDateTime;
+    fn naive(&self, dt: NaiveDateTime) -> NaiveDateTime {
+        dt
+    }
+    fn datetime(&self, naive: NaiveDateTime) -> NaiveDateTime {
+        naive
+    }
+    fn event_time(&self, date: NaiveDate, event: opening_hours_syntax::rules::time::TimeEvent) -> chrono::NaiveTime {
+        use opening_hours_syntax::rules::time::TimeEvent;
+        let open = match self.known.as_ref().and_then(|k| k.get(&date)) {
+            Some(o) => *o,
+            None => inner_open(&self.inner, date),
+        };
+        let (h, m) = match event {
+            TimeEvent::Dawn => (6, 0),
+            TimeEvent::Sunrise => (7, 0),
+            TimeEvent::Sunset => (19, 0),
+            TimeEvent::Dusk => (20, 0),
+        };
+        chrono::NaiveTime::from_hms_opt(h, if open { m + 30 } else { m }, 0).unwrap()
+    }
+}
+
+fn nested_eval(e: &str, inner: &str, t: i64, n: u32, reentrant: bool) -> String {
+    let (outer, inner) = match (OpeningHours::parse(e), OpeningHours::parse(inner)) {
+        (Ok(a), Ok(b)) => (a, Arc::new(b)),
+        (Err(m), _) | (_, Err(m)) => return format!("parse error: {m}"),
+    };
+    let known = if reentrant {
+        None
+    } else {
+        let d0 = ndt(t).date();
+        Some(Arc::new((-3..400i64).map(|k| d0 + chrono::TimeDelta::days(k)).map(|d| (d, inner_open(&inner, d))).collect()))
+    };
+    let oh = outer.with_context(Context::default().with_locale(NestedLocale { inner, known }));
+    let from = ndt(t);
+    let items: Vec<String> = oh.iter_from(from).take(n as usize).map(|r| render_n(&r)).collect();
+    format!("{:?} {:?} {}", oh.state(from), oh.next_change(from), items.join(""))
+}
+
 fn ndt(t: i64) -> NaiveDateTime {
     DateTime::<Utc>::from_timestamp(t, 0).expect("instant").naive_utc()
 }
@@ -385,6 +440,7 @@ fn eval_inner(op: &Op, pre: Option<(&Shared, &[(String, Ctx)])>, chans: Option<&
                 format!("{m} | {m} | {m}")
             }
         },
+        Op::Nested { e, inner, t, n, reentrant } => nested_eval(e, inner, *t, *n, *reentrant),
         Op::Zip { e1, t1, e2, t2, n } => match (build(e1, &Ctx::Default), build(e2, &Ctx::Default)) {
             (Ok(a), Ok(b)) => {
                 let (mut ia, mut ib) = (a.iter(*t1), b.iter(*t2));
@@ -567,6 +623,8 @@ fn reference_op(op: &Op, prebuilt: &[(String, Ctx)]) -> Op {
         }
         Op::Send { e, c, t, k, .. } => Op::Iter { e: e.clone(), c: c.clone(), t: *t, n: *k },
         Op::Recv { e, c, t, k, n, .. } => Op::Iter { e: e.clone(), c: c.clone(), t: *t, n: *k + *n },
+        // the reference of a re-entrant evaluation asked the inner schedule beforehand
+        Op::Nested { e, inner, t, n, .. } => Op::Nested { e: e.clone(), inner: inner.clone(), t: *t, n: *n, reentrant: false },
         other => other.clone(),
     }
 }
